@@ -103,6 +103,7 @@ template <typename T> struct fut_round {
     std::optional<cocls::promise<T>> prom;
     int ncont = 0, nwait = 0;
     int action[4] = {}, wkind[3] = {};
+    std::atomic<int> body_runs[4] = {}; // entry "async::start(promise)": how often the competing coroutine's body ran (1 if it won, 0 if not)
     int entry[4] = {}; // which of the equivalent promise entry points the contender uses (operator() / set_value / set_exception / unhandled_exception)
     std::atomic<int> res[4];
     bool consumed[4] = {};
@@ -153,6 +154,7 @@ template <typename T> cocls::async<void> f_w_hasvalue(fut_round<T> &X, int wi) {
     rec.released.fetch_add(1, std::memory_order_relaxed);
 }
 
+inline cocls::async<int> f_contender_coro(int id, std::atomic<int> *runs) { runs->fetch_add(1, std::memory_order_relaxed); co_return id; }
 template <typename T> void f_contender(fut_round<T> &X, int c) {
     cocls::promise<T> &p = *X.prom;
     uint64_t id = 100 + (uint64_t)c;
@@ -165,6 +167,9 @@ template <typename T> void f_contender(fut_round<T> &X, int c) {
             else if constexpr (std::is_same_v<T, int>) r = (bool)p((int)id);
             else if constexpr (std::is_same_v<T, tracked_mo>) { tracked_mo a(id); r = (bool)p(std::move(a)); X.consumed[c] = a.moved(); }
             else r = (bool)p(id);
+        } else if (X.entry[c] == 2 && std::is_same_v<T, int>) {
+            // a coroutine started INTO the contended promise (async::start(promise&)): it may only run if it wins the claim
+            if constexpr (std::is_same_v<T, int>) { cocls::async<int> co = f_contender_coro((int)id, &X.body_runs[c]); r = (bool)co.start(p); }
         } else { // the named entry point
             if constexpr (std::is_void_v<T>) r = (bool)p.set_value();
             else if constexpr (std::is_reference_v<T>) r = (bool)p.set_value(X.target[c]);
@@ -256,7 +261,7 @@ void future_round(const vf::opts &o, vf::report &R, vf::team &T_, uint64_t rn, u
         uint32_t x = r.below(10);
         X.action[c] = abstain_all ? FA_NONE : (x < 5 ? FA_VALUE : x < 7 ? FA_EXC : x < 9 ? FA_DROP : FA_NONE);
         X.entry[c] = (int)r.below(3);
-        desc += std::string(fa_name(X.action[c])) + (X.entry[c] == 0 ? "" : X.action[c] == FA_EXC ? (X.entry[c] == 1 ? "[set_exception]" : "[unhandled_exception]") : X.action[c] == FA_NONE ? "" : "[set_value]") + ",";
+        desc += std::string(fa_name(X.action[c])) + (X.entry[c] == 0 ? "" : X.action[c] == FA_EXC ? (X.entry[c] == 1 ? "[set_exception]" : "[unhandled_exception]") : X.action[c] == FA_NONE ? "" : (X.entry[c] == 2 && std::is_same_v<T, int>) ? "[async::start(promise)]" : "[set_value]") + ",";
     }
     desc += " W:";
     for (int w = 0; w < X.nwait; w++) {
@@ -297,6 +302,7 @@ void future_round(const vf::opts &o, vf::report &R, vf::team &T_, uint64_t rn, u
         int want = X.action[c] == FA_NONE ? -1 : (c == winner ? 1 : 0);
         if (X.res[c].load() != want) e1 = "contender result inconsistent";
         if (X.consumed[c] && X.res[c].load() == 0) e1 = "a losing call consumed its move-only argument";
+        if (e1.empty() && X.body_runs[c].load() != (X.action[c] == FA_VALUE && X.entry[c] == 2 && std::is_same_v<T, int> && X.res[c].load() == 1 ? 1 : 0)) e1 = "a coroutine started into the contended promise ran " + std::to_string(X.body_runs[c].load()) + " times although its start reported " + (X.res[c].load() == 1 ? "success" : "failure");
     }
     if (!X.f->ready()) { if (e1.empty()) e1 = "future still pending after every call returned and the promise was destroyed"; corrupt = true; }
     if (!corrupt && e1.empty()) {
